@@ -263,12 +263,42 @@ func (f *frame) binop(op token.Token, X, Y ssa.Value, pos token.Pos, rt types.Ty
 		return bvMul(a, b)
 	case token.QUO:
 		f.oblige("div", pos, mkNot(mkEq(b, f.tt().zero(Y.Type()))))
+		if _, constDiv := Y.(*ssa.Const); !constDiv && a.Sort == SBV64 && f.vc.P.abstractDiv {
+			f.vc.P.sawSymbolicDiv = true
+			// symbolic divisor: bit-blasting 64-bit division stalls every solver; over-approximate the quotient
+			// by its range (sound for proofs; a refutation that depends on it does not replay)
+			q := f.vc.declareFresh(f.prefix+"quo", a.Sort)
+			zero := f.tt().zero(Y.Type())
+			if signed {
+				f.vc.assume(mkImplies(mkAnd(sle(zero, a), slt(zero, b)), mkAnd(sle(zero, q), sle(q, a))))
+			} else {
+				f.vc.assume(ule(q, a))
+			}
+			return q
+		}
+		if _, constDiv := Y.(*ssa.Const); !constDiv {
+			f.vc.P.sawSymbolicDiv = true
+		}
 		if signed {
 			return app("bvsdiv", a.Sort, a, b)
 		}
 		return app("bvudiv", a.Sort, a, b)
 	case token.REM:
 		f.oblige("div", pos, mkNot(mkEq(b, f.tt().zero(Y.Type()))))
+		if _, constDiv := Y.(*ssa.Const); !constDiv && a.Sort == SBV64 && f.vc.P.abstractDiv {
+			f.vc.P.sawSymbolicDiv = true
+			r := f.vc.declareFresh(f.prefix+"rem", a.Sort)
+			zero := f.tt().zero(Y.Type())
+			if signed {
+				f.vc.assume(mkImplies(mkAnd(sle(zero, a), slt(zero, b)), mkAnd(sle(zero, r), slt(r, b), sle(r, a))))
+			} else {
+				f.vc.assume(mkAnd(ult(r, b), ule(r, a)))
+			}
+			return r
+		}
+		if _, constDiv := Y.(*ssa.Const); !constDiv {
+			f.vc.P.sawSymbolicDiv = true
+		}
 		if signed {
 			return app("bvsrem", a.Sort, a, b)
 		}
